@@ -5,9 +5,9 @@ coordinator's props/C11.py feeds them to `finish`.  See engines/kani/NOTES_C11.m
 
     python3-vt props/C11_kani.py [quick|thorough] [name-substring ...]
 """
-import os, sys, time
+import os, re, shutil, subprocess, sys, time
 sys.path.insert(0, os.path.dirname(os.path.dirname(os.path.abspath(__file__))))
-from engines.kani.runner import HDIR, Insert, prepare, _run_one, replay as kreplay
+from engines.kani.runner import HDIR, Insert, prepare, _run_one
 from vlib.common import Obligation, log
 from vlib.par import pmap
 
@@ -117,9 +117,6 @@ H = [
          bounds="bases [k+t n, 1], [+-n, 0] (either order), k < n < 2^4, |t| <= 2, unwind 12",
          desc="terminates; returned second coordinates belong to a size-reduced basis (N(u) <= N(v), 2|<u,v>| <= N(u), "
               "det +-n) of the same lattice; returned bit length = bitlen(N(v))"),
-    dict(h="verif_lag_spec192_kn_b4", file=F_LAG, name="lagrange192_spec_vartime:L(k,n),n<2^4", key="lagrange.spec192",
-         fn=["lagrange192_spec_vartime (%s)" % LAG], args=KISSAT, cap=(0, 1800), tiers=("thorough",),
-         bounds="bases [k+t n, 1], [+-n, 0] (either order), k < n < 2^4, |t| <= 2, unwind 12", desc="same contract"),
 ]
 
 STUBS = {
@@ -141,8 +138,10 @@ OUTSIDE = [
     "unbounded termination of full-width Lagrange reduction (only bounded operand sizes are unwound)",
     "lagrange256_vartime on symbolic operands (8-limb ZInt512 arithmetic: CBMC out of memory at 4-bit operands); it is "
     "exercised only for k = 0 (split.zero)",
-    "lagrange128/192_spec_vartime on arbitrary signed bases (two-call harness does not close at 3-bit operands); posed on "
-    "the lattice shape L(k, n) only, thorough tier",
+    "lagrange128/192_spec_vartime on arbitrary signed bases (two-call harness does not close at 3-bit operands); "
+    "lagrange128_spec_vartime is posed on the lattice shape L(k, n) only (thorough tier); the same harness for "
+    "lagrange192_spec_vartime (6-limb ZInt384) did not close within 28 min and is not posed",
+    "ZInt384 / ZInt512 shifted add/sub (ZInt512: no verdict in 25 min)",
     "one-iteration ranking argument (ii): the loop bodies cannot be called in isolation without editing /repo",
     "functional contract k*c1 = c0 (mod n) of the main path: needs exact 256-bit modular products (engine L/P territory); "
     "posed at glue level: which reduction output becomes c1, how many products feed c0, fallback identity",
@@ -150,6 +149,41 @@ OUTSIDE = [
     "instantiates (ed448::Scalar: SPLIT_LEN = 29, DLEN = 4); reachable only through user-defined moduli",
     "w32 backend copies of the same code (src/backend/w32/modint.rs has the same leftover assertion)",
 ]
+
+
+def native_replay(sc, res, harness_basename, timeout=900):
+    """Kani concrete playback of the counterexample, natively and WITHOUT stubs (same mechanics as
+    engines.kani.runner.replay).  Returns (reproduced, panic message).  A playback whose only panic is Kani's own
+    'there were still these concrete values left over' (the stubs drew kani::any() values that the unstubbed run
+    never consumes) is NOT a reproduction: the library returned normally."""
+    if not res.playback:
+        return None, "no playback"
+    m = re.search(r"fn (kani_concrete_playback_\w+)", res.playback)
+    if not m:
+        return None, "no playback test"
+    hfile = os.path.join(sc.src, "src", "verif_h", harness_basename)
+    pb = res.playback.replace("Vec<Vec<u8>>", "std::vec::Vec<std::vec::Vec<u8>>").replace("vec![", "std::vec![")
+    with open(hfile, "a") as fh:
+        fh.write("\n" + pb + "\n")
+    tdir = os.path.join(sc.root, "kt_replay_" + m.group(1)[-12:])
+    env = dict(os.environ)
+    env["CARGO_NET_OFFLINE"] = "true"
+    env["CARGO_TARGET_DIR"] = tdir
+    try:
+        p = subprocess.run(["cargo", "kani", "playback", "-Z", "concrete-playback", "--", m.group(1)], cwd=sc.src,
+                           env=env, stdout=subprocess.PIPE, stderr=subprocess.STDOUT, text=True, timeout=timeout)
+        out = p.stdout
+    except subprocess.TimeoutExpired:
+        shutil.rmtree(tdir, ignore_errors=True)
+        return None, "playback timed out"
+    shutil.rmtree(tdir, ignore_errors=True)
+    panics = re.findall(r"panicked at ([^\n]*):\n([^\n]*)", out)
+    real = [(loc, msg) for loc, msg in panics if "concrete_playback.rs" not in loc]
+    if real:
+        return True, "%s: %s" % (real[0][0], real[0][1][:200])
+    if panics or re.search(r"test result: ok\. 1 passed", out):
+        return False, "library returned normally" + (" (only Kani's leftover-values panic)" if panics else "")
+    return None, out[-400:]
 
 
 def _sel(tier, only):
@@ -198,21 +232,33 @@ def obligations(tier, only=None):
             else:
                 ob.ok(solver, r.seconds)
         elif r.status == "failure":
-            kreplay(sc, r, d["file"])
+            r.replayed, why = native_replay(sc, r, d["file"])
+            log("[C11k] %s native playback: %s %s" % (d["h"], r.replayed, why))
             if r.replayed is True:
-                ob.fail({"key": d["key"], "harness": d["h"], "failed_checks": r.failed[:8],
-                         "scalar_k_hex": _k_of(r.playback), "playback": r.playback,
+                ob.fail({"key": d["key"], "harness": d["h"], "failed_checks": r.failed[:8], "native_panic": why,
+                         "scalar_k_hex": _k_of(r.playback) if d["key"] == KEY_ASSERT else None, "playback": r.playback,
                          "replay": "cargo kani playback of the unit test above, WITHOUT stubs, panics natively"},
                         solver + " + native playback", r.seconds)
             else:
-                ob.unknown("counterexample lives only under a stub / does not reproduce natively (%s): %s"
-                           % (r.replayed, "; ".join(r.failed[:3])), solver, r.seconds)
+                ob.unknown("counterexample lives only under a stub / does not reproduce natively (%s, %s): %s"
+                           % (r.replayed, why[:120], "; ".join(r.failed[:3])), solver, r.seconds)
         else:
             ob.unknown("%s: %s" % (r.status, r.log_tail[-300:].replace("\n", " | ")), solver, r.seconds)
         obs.append(ob)
     sc.remove()
     log("[C11k] %d obligations in %.0fs" % (len(obs), time.time() - t0))
     return obs
+
+
+# harnesses whose claim is "returns without panicking" (property C19 reuses them)
+TOTALITY = ["verif_split_glue_lfam_ed25519", "verif_split_glue_lsmall_ed25519", "verif_split_glue_long_ed25519",
+            "verif_split_glue_lfam_p256", "verif_split_glue_main_ed25519", "verif_split_glue_main_p256",
+            "verif_split_zero_ed25519", "verif_split_zero_p256", "verif_p256_helper_assert"]
+
+
+def totality_obligations(tier):
+    """the subset about panic-freedom of split_vartime and of p256 verify_helper_vartime's recovery loop"""
+    return obligations(tier, only=TOTALITY)
 
 
 def _k_of(playback):
@@ -242,8 +288,9 @@ if __name__ == "__main__":
         n[o.verdict] = n.get(o.verdict, 0) + 1
         extra = ""
         if o.verdict == "violated":
-            extra = " key=%s k=%s%s" % (o.model.get("key"), o.model.get("scalar_k_hex"),
-                                        " [KNOWN-FINDING]" if match_known(PID, o) else "")
+            extra = " key=%s%s%s" % (o.model.get("key"),
+                                     " k=%s" % o.model.get("scalar_k_hex") if o.model.get("key") == KEY_ASSERT else "",
+                                     " [KNOWN-FINDING]" if match_known(PID, o) else "")
         elif o.verdict == "inconclusive":
             extra = " " + o.reason[:160]
         print("%-13s %7.1fs %s%s" % (o.verdict, o.seconds, o.name, extra))
